@@ -9,6 +9,7 @@
     K <type>                        →  <rec after Clear()> <rec after the constructor>
     Q <type> <ver> <rec>            →  ok <rec of all struct fields after Process()>  |  panic
     D <ver> <hex>                   →  <hex of Dbc after Process()>
+    M <sep byte> <key hex> <val hex> <hex>  →  <hex of NewParamKVSeperate(s, sep, "=").ToStringStr(key, val)>
     N <4|8> <hex>                   →  ParseInt32 / ParseInt64 of the text
     Z <int>                         →  <hex of ParseStringZeroToEmpty>
     T <n> <hex>                     →  <hex of stringutil.Truncate(s, n)>
@@ -87,6 +88,10 @@ def answer (line : String) : String :=
     match parseInt ver, ofHex hex with
     | some ver, some bs => hexOf (processDbc ver bs)
     | _, _ => "bad-op"
+  | ["M", c, k, v, hex] =>
+    match parseNat c, ofHex k, ofHex v, ofHex hex with
+    | some c, some k, some v, some bs => hexOf (maskPass c k v bs)
+    | _, _, _, _ => "bad-op"
   | ["N", w, hex] =>
     match parseNat w, ofHex hex with
     | some w, some bs => toString (parseIntW w bs)
